@@ -13,7 +13,7 @@ EXTRACT = ["FDS", "C04R"]
 BINS = ["c04r"]
 NEEDS_CICADA = True
 ALLOWED_AXIOMS = []
-PINNED = ["C04_full", "C04_holds", "C04_sinks", "C04_builtin_sinks", "C04_builtin_probe", "C04_captured_builtin_full", "C04_captured_builtin_refuted", "C04_captured_builtin_partial", "Known_C04", "C04_unopenable", "C04_parse", "C04_parse_from", "C04_parse_from_attached", "C04_shell_unaffected"]
+PINNED = ["C04_full", "C04_holds", "C04_sinks", "C04_builtin_sinks", "C04_builtin_probe",  "C04_unopenable", "C04_parse", "C04_parse_from", "C04_parse_from_attached", "C04_shell_unaffected"]
 TRUSTED = R.TRUSTED
 ASSUMES = R.ASSUMES + ["file contents: create/truncate/append are observed on the real binary (L2), the model records the open mode only"]
 WEIGHTS = {"builtin": 0.15, "notfound": 0.03, "here": 0.12, "from": 0.15, "redir": 0.9, "maxredir": 4, "capture": 0.1,
@@ -83,6 +83,7 @@ def run(ctx, res):
     replays = [[R.PRELUDE()] + R.REPLAYS[c]() for c in ("capture-with-redirect", "captured-builtin-last-stage")] + [[R.PRELUDE(), R.S([R.E(0), R.E(1, True, frm="h")])]]
     R.run_sequences(ctx, res, "C04", replays, "replay")
     R.run_sequences(ctx, res, "C04", R.captured_builtin_seqs(ctx), "builtin")
+    R.run_sequences(ctx, res, "C04", R.builtin_empty_text_seqs(ctx), "builtinempty")
     R.run_sequences(ctx, res, "C04", R.builtin_truncate_seqs(ctx), "builtintrunc")
     R.run_sequences(ctx, res, "C04", R.gen_sequences(ctx, 200 if ctx.thorough else 35, 3, WEIGHTS, maxn=4), "seq")
     R.run_sequences(ctx, res, "C04", R.l3_cases(ctx)[-4:], "l3", strace=True)
